@@ -34,6 +34,7 @@ inductive Err where
   | isSetup        -- EupsException "Product ... is already setup; specify force to proceed"
   | noPermission   -- EupsException "You do not have permission to undeclare products from ..."
   | tagNotFound    -- `eups remove -t TAG product`: "Failed to lookup tag TAG for product ..." (exit status 2)
+  | eof            -- `eups remove -i`: the answers ran out (`input` raises EOFError) — after earlier products are gone
 deriving Repr, DecidableEq
 
 inductive Outcome where
@@ -149,6 +150,70 @@ def removeWith (s : State) (uses : UsesOutcome) (name ver : Str) (recursive chec
 def remove (s : State) (name ver : Str) (recursive check force : Bool) (defaultName : Option Str) :
     Outcome × State × List Prod :=
   removeWith s (usesInfo s.db s.db.fuel) name ver recursive check force defaultName
+
+/-! ### `eups remove -i`: the prompts of the destruction loop -/
+
+/-- one line typed at the prompt `Remove <product> <version>: (ynq!) [<default>]` -/
+inductive Ans where
+  | y | n | q | bang | empty | other
+deriving Repr, DecidableEq
+
+/-- `default_yn`: the last of `y`, `n`, `!` that was answered (`y` at the start) -/
+inductive Dflt where
+  | y | n | bang
+deriving Repr, DecidableEq
+
+inductive Decision where
+  | remove | skip | quit | eof
+deriving Repr, DecidableEq
+
+/-- the prompt loop for one product: `yn = default_yn; while yn != "!": yn = input(...)`; an empty line is the default, `y`,
+`n`, `!` become the default and end the loop, `q` returns from `remove`, anything else asks again.  After a `!` nothing is
+asked any more. -/
+def ask : Dflt → List Ans → Decision × Dflt × List Ans
+  | .bang, as => (.remove, .bang, as)
+  | d, [] => (.eof, d, [])
+  | d, a :: as =>
+    match a with
+    | .y => (.remove, .y, as)
+    | .n => (.skip, .n, as)
+    | .bang => (.remove, .bang, as)
+    | .q => (.quit, d, as)
+    | .empty => (if d == .n then .skip else .remove, d, as)
+    | .other => ask d as
+
+/-- the destruction loop with `interactive=True`: every product (each once) is asked about first; `n` leaves it alone,
+`q` ends the command — the products removed so far stay removed —; third component: the products actually removed -/
+def destroyLoopI (force : Bool) : State → List Prod → Dflt → List Ans → Outcome × State × List Prod
+  | s, [], _, _ => (.ok, s, [])
+  | s, p :: ps, d, as =>
+    match ask d as with
+    | (.eof, _, _) => (.failed .eof, s, [])
+    | (.quit, _, _) => (.ok, s, [])
+    | (.skip, d', as') => destroyLoopI force s ps d' as'
+    | (.remove, d', as') =>
+      if !s.dbWritable then (.failed .noPermission, s, [])
+      else if s.isSetup p && !force then (.failed .isSetup, s, [])
+      else
+        let r := destroyLoopI force (destroy s [p]) ps d' as'
+        (r.1, r.2.1, p :: r.2.2)
+
+/-- `Eups.remove(..., interactive=True)`: collection, in-use check and the set-up pre-check as without `-i`; then the
+loop with its prompts -/
+def removeWithI (s : State) (uses : UsesOutcome) (name ver : Str) (recursive check force : Bool)
+    (defaultName : Option Str) (answers : List Ans) : Outcome × State × List Prod :=
+  let go (sb : Option SetupBy) : Outcome × State × List Prod :=
+    match collect s.db sb force defaultName (name, ver) s.removeFuel name (some ver) recursive [] with
+    | .error e => (.failed e, s, [])
+    | .ok (l, _) =>
+      if !force && (uniqProds l).any s.isSetup then (.failed .isSetup, s, [])
+      else destroyLoopI force s (uniqProds l) .y answers
+  if check then
+    match uses with
+    | .outOfFuel => (.failed .outOfFuel, s, [])
+    | .cycle => (.failed .cycle, s, [])
+    | .ok sb => go (some sb)
+  else go none
 
 /-! ### histories on one `Eups` object: `declare` between two removals -/
 
